@@ -1,5 +1,188 @@
-import RSVerif.Basic
-/- C09: line-protocol driver (stub) -/
+import RSVerif.Model.Pipe
+/-
+C09 — line protocol: what the pipe model predicts for one *serialised schedule* of go/harness/c09.go.
+
+case:    <kind> <req> <salt> <op> <op> …          kind ∈ mem-raw | file-raw | mem-api | file-api
+           raw: ring of exactly <req> bytes (hook constructor); api: NewSize(req) / NewFilePipe(req, f)
+ops:     w:<k>   writer goroutine: Write(k pattern bytes)         (w=busy if a Write is still in flight)
+         r:<k>   reader goroutine: "read up to k": Read calls until k bytes arrived or the pipe is
+                 empty once the writer has come to rest; k = 0: one zero-length Read
+         rc:<e> / wc:<e>   Close() (e = 0) or CloseWithError(custom e), from the scheduling thread
+         b / a   Buffered() / Available()
+         (every case ends with the implicit ops rc:0 wc:0, after which nothing may still be in flight)
+result:  one token per op — the op's own outcome (`park` = the goroutine sits in cond.Wait), followed by
+         `+R=…` / `+W=…` for an in-flight Read/Write that this op caused to complete.
+Only what the property fixes is printed: byte counts and bytes of a *completed* compound read, error
+classes, blocked/woken, counters.  The sizes of the individual partial reads (the code's own rule,
+`min k buffered (size - rpos % size)`, comma-separated) and the file length follow a `~` and are a
+diagnostic: vlib/props_c09.py strips them before comparing (DESIGN §2.4, two levels of correspondence).
+
+The threads are the model's `Sys.stepReader` / `Sys.stepWriter` (the `Read`/`Write` loops over the atomic
+steps the theorems are about); this file only schedules them: one thread runs until it returns or parks.
+-/
 namespace RSVerif.Drive.C09
-def handle (_line : String) : String := "unimplemented"
+open RSVerif RSVerif.Pipe
+
+def errStr : Option Err → String
+  | none => "ok"
+  | some .eof => "eof"
+  | some .closed => "closed"
+  | some (.custom n) => s!"c{n}"
+
+/-- FNV-1a, 64 bit -/
+def fnv (bs : Bytes) : UInt64 :=
+  bs.foldl (fun h b => (h ^^^ b.toUInt64) * 1099511628211) 14695981039346656037
+
+def digest (bs : Bytes) : String :=
+  if bs.length ≤ 16 then hexOrDash bs else "#" ++ toHex (le64 (fnv bs)).reverse
+
+/-- byte j of the data of op number i -/
+def pat (salt i j : Nat) : UInt8 :=
+  let x := salt * 7919 + i * 104729 + j
+  UInt8.ofNat ((x * 40503 + x / 251) % 256)
+
+def patBytes (salt i k : Nat) : Bytes := (List.range k).map (pat salt i)
+
+/-- the harness's reader goroutine: a compound "read up to k" -/
+structure RJob where
+  k : Nat
+  got : Bytes
+  sizes : List Nat        -- sizes of the individual Read results, newest first (diagnostic)
+  between : Bool          -- a Read returned; wait for the writer to come to rest, then look at Buffered
+
+structure H where
+  sys : Sys
+  rjob : Option RJob
+  wjob : Bool
+  rdone : Option String
+  wdone : Option String
+
+def fmtR (got : Bytes) (err : String) (sizes : List Nat) : String :=
+  s!"{got.length}:{digest got}:{err}~{",".intercalate (sizes.reverse.map toString)}"
+
+/-- run the threads until every one of them has returned or is parked -/
+def settle : Nat → H → H
+  | 0, h => h
+  | fuel + 1, h =>
+    let writerTurn (h : H) : Option H :=
+      if h.wjob && h.sys.writerRunnable then
+        match h.sys.stepWriter with
+        | (sys', none) => some { h with sys := sys' }
+        | (sys', some ret) =>
+          some { h with sys := sys', wjob := false, wdone := some s!"{ret.n}:{errStr ret.err}" }
+      else none
+    match h.rjob with
+    | none =>
+      match writerTurn h with
+      | some h' => settle fuel h'
+      | none => h
+    | some j =>
+      if !j.between && h.sys.readerRunnable then
+        match h.sys.stepReader with
+        | (sys', none) => settle fuel { h with sys := sys' }
+        | (sys', some ret) =>
+          let got := j.got ++ ret.data
+          let sizes := ret.data.length :: j.sizes
+          if ret.err.isSome then
+            settle fuel { h with sys := sys', rjob := none, rdone := some (fmtR got (errStr ret.err) sizes) }
+          else if ret.data.isEmpty then
+            let res := fmtR got (if j.k = 0 then "ok" else "zero") sizes
+            settle fuel { h with sys := sys', rjob := none, rdone := some res }
+          else if got.length ≥ j.k then
+            settle fuel { h with sys := sys', rjob := none, rdone := some (fmtR got "ok" sizes) }
+          else
+            settle fuel { h with sys := sys', rjob := some { j with got := got, sizes := sizes, between := true } }
+      else
+        match writerTurn h with
+        | some h' => settle fuel h'
+        | none =>
+          if j.between then
+            if h.sys.p.buffered.1 = 0 then
+              settle fuel { h with rjob := none, rdone := some (fmtR j.got "ok" j.sizes) }
+            else
+              let sys1 : Sys := { h.sys with rt := .reading (j.k - j.got.length) }
+              settle fuel { h with sys := sys1, rjob := some { j with between := false } }
+          else h
+
+def completions (h : H) (own : String) : String :=
+  let r := if own != "r" then match h.rdone with | some s => "+R=" ++ s | none => "" else ""
+  let w := if own != "w" then match h.wdone with | some s => "+W=" ++ s | none => "" else ""
+  r ++ w
+
+def fuelFor (h : H) (k : Nat) : Nat := 8 * (k + h.sys.p.store.size) + 64 +
+  (match h.sys.wt with | .writing rest _ => 8 * rest.length | .idle => 0) +
+  (match h.rjob with | some j => 8 * j.k | none => 0)
+
+def parseErr (e : Nat) : Option Err := if e = 0 then none else some (.custom e)
+
+/-- one op of the schedule: new state and result token -/
+def exec (salt : Nat) (isFile : Bool) (h : H) (idx : Nat) (op : String) : H × String :=
+  let h := { h with rdone := none, wdone := none }
+  match op.splitOn ":" with
+  | ["w", ks] =>
+    match ks.toNat? with
+    | none => (h, "badop")
+    | some k =>
+      if h.wjob then (h, "w=busy") else
+      let sys1 : Sys := { h.sys with wt := .writing (patBytes salt idx k) 0 }
+      let h1 := settle (fuelFor h k) { h with sys := sys1, wjob := true }
+      let own := match h1.wdone with | some s => "w=" ++ s | none => "w=park"
+      (h1, own ++ completions h1 "w")
+  | ["r", ks] =>
+    match ks.toNat? with
+    | none => (h, "badop")
+    | some k =>
+      if h.rjob.isSome then (h, "r=busy") else
+      let job : RJob := { k := k, got := [], sizes := [], between := false }
+      let sys1 : Sys := { h.sys with rt := .reading k }
+      let h1 := settle (fuelFor h k) { h with sys := sys1, rjob := some job }
+      let own := match h1.rdone with | some s => "r=" ++ s | none => "r=park"
+      (h1, own ++ completions h1 "r")
+  | ["rc", es] =>
+    match es.toNat? with
+    | none => (h, "badop")
+    | some e =>
+      let h1 := settle (fuelFor h 0) { h with sys := { h.sys with p := h.sys.p.rclose (parseErr e) } }
+      (h1, "rc=ok" ++ completions h1 "")
+  | ["wc", es] =>
+    match es.toNat? with
+    | none => (h, "badop")
+    | some e =>
+      let h1 := settle (fuelFor h 0) { h with sys := { h.sys with p := h.sys.p.wclose (parseErr e) } }
+      (h1, "wc=ok" ++ completions h1 "")
+  | ["b"] =>
+    let (n, err) := h.sys.p.buffered
+    (h, s!"b={n}:{errStr err}" ++ (if isFile then s!"~fl{h.sys.p.store.mem.length}" else ""))
+  | ["a"] =>
+    let (n, err) := h.sys.p.available
+    (h, s!"a={n}:{errStr err}")
+  | _ => (h, "badop")
+
+def runOps (salt : Nat) (isFile : Bool) : H → Nat → List String → List String → List String
+  | h, _, [], acc => (if h.rjob.isSome || h.wjob then "leak" :: acc else acc).reverse
+  | h, idx, op :: rest, acc =>
+    let (h', tok) := exec salt isFile h idx op
+    runOps salt isFile h' (idx + 1) rest (tok :: acc)
+
+def handle (line : String) : String :=
+  match (line.splitOn " ").filter (· ≠ "") with
+  | kind :: reqs :: salts :: ops =>
+    match reqs.toNat?, salts.toNat? with
+    | some req, some salt =>
+      let mk : Option (Pipe × Bool) :=
+        match kind with
+        | "mem-raw" => if req = 0 then none else some (Pipe.init .mem req, false)
+        | "file-raw" => if req = 0 then none else some (Pipe.init .file req, true)
+        | "mem-api" => some (newSize req, false)
+        | "file-api" => some (newFilePipe req, true)
+        | _ => none
+      match mk with
+      | none => "panic"
+      | some (p, isFile) =>
+        let h : H := { sys := { p := p, rt := .idle, wt := .idle }, rjob := none, wjob := false,
+                       rdone := none, wdone := none }
+        " ".intercalate (runOps salt isFile h 0 (ops ++ ["rc:0", "wc:0"]) [])
+    | _, _ => "badcase"
+  | _ => "badcase"
+
 end RSVerif.Drive.C09
